@@ -615,10 +615,13 @@ def check_type(run, cx, cfg, adt, only=None):
                                            'set_first', 'iter_loop')
         for ip, p in enumerate(rets):
             inst = '%s:path%d' % (cfg, ip)
+            # the floors count the paths that were examined, whatever the outcome
+            n_generic += 1
+            if has_spec and p['end'] == 'return':
+                n_spec += 1
             try:
                 pa = PA(cx, b, p, adt)
                 fails = pa.check_memory()
-                n_generic += 1
                 if fails:
                     run.fail('rb.memory-safety', fn, inst, fails[0] + ' [%s]' % describe_path(p)[:300], where=where(b))
                 else:
@@ -630,7 +633,6 @@ def check_type(run, cx, cfg, adt, only=None):
                         {pa.names[i]: repr(pa.post(i)) for i in range(len(pa.names)) if i != pa.di}, describe_path(p)[:300]), where=where(b))
                 if has_spec and p['end'] == 'return':
                     why = specf(name, pa, p)
-                    n_spec += 1
                     if why == 'no-spec':
                         pass
                     else:
